@@ -185,9 +185,10 @@ def gen_run(rng, cid):
 
 
 def gen_kwargs(rng, cid):
-    pre = {'x': 10, 'y': 0, 's': ''}
-    cmds = [['evalstr', '111', '(define x 10)'], ['evalstr', '111', '(define y 0)'], ['evalstr', '111', '(define s "")']]
-    names = ['x', 'y', 's', 'p', 'q']
+    pre = {'x': 10, 'y': 0, 's': '', 'z': None}
+    cmds = [['evalstr', '111', '(define x 10)'], ['evalstr', '111', '(define y 0)'], ['evalstr', '111', '(define s "")'],
+            ['evalstr', '111', '(define z (if #f 1))']]          # a variable that holds None
+    names = ['x', 'y', 's', 'p', 'q', 'z']
     subset = [nm for nm in names if rng.random() < 0.5] or ['x']
     kw = {nm: lib.ser_py(rng.choice([1, 2, 'v', 0])) for nm in subset}
     expr = '(list ' + ' '.join(subset) + ')'
@@ -196,7 +197,7 @@ def gen_kwargs(rng, cid):
     probe = '(list ' + ' '.join("(if (defined? '%s) %s 'undef)" % (nm, nm) for nm in names) + ')'
     cmds.append(['evalstr', '111', probe])
     want_after = 'ok ( ' + ' '.join((lib.ser_py(pre[nm]) if nm in pre else 'Y' + b'undef'.hex()) for nm in names) + ' )'
-    return {'id': cid, 'kind': 'kwargs', 'cmds': cmds, 'want': [(3, want_during), (4, want_after)], 'subset': subset}
+    return {'id': cid, 'kind': 'kwargs', 'cmds': cmds, 'want': [(4, want_during), (5, want_after)], 'subset': subset}
 
 
 def oracle(case, impl):
